@@ -14,21 +14,22 @@ import (
 
 // Tier describes the bounded spaces of one tier of the program × input sweep.
 type Tier struct {
-	PN           int   // pattern ASTs up to this many nodes
-	SK           int   // seed neighbourhood edits (-1 = no seeds)
-	LASCII       int   // haystack symbols over SigmaASCII
-	LBig         int   // symbols over SigmaASCII for the large P patterns (more than EmbedPN nodes); 0 = LASCII
-	LUTF8Big     int   // symbols over SigmaUTF8 for the large P patterns; 0 = LUTF8
-	LRawBig      int   // symbols over SigmaRaw for the large P patterns; 0 = LRaw
-	LUTF8        int   // over SigmaUTF8
-	LRaw         int   // over SigmaRaw
-	EmbedW       int   // embeddings: max |w| over SigmaUTF8 (-1 = none)
-	EmbedPN      int   // embeddings are applied to P patterns with at most this many AST nodes (0 = all)
-	SeedJ        []int // right-pad lengths of the seed embeddings
-	SeedEmbFirst int   // when > 0 only the first SeedEmbFirst seed patterns (the seeds themselves come first) get embeddings
-	TokL         int   // seed haystacks: sequences of ≤ TokL tokens
-	TokN         int   // token alphabet size for seeds
-	SeedEmbW     int   // seed embeddings: |w| ≤ this many tokens
+	PN           int    // pattern ASTs up to this many nodes
+	SK           int    // seed neighbourhood edits (-1 = no seeds)
+	LASCII       int    // haystack symbols over SigmaASCII
+	LBig         int    // symbols over SigmaASCII for the large P patterns (more than EmbedPN nodes); 0 = LASCII
+	LUTF8Big     int    // symbols over SigmaUTF8 for the large P patterns; 0 = LUTF8
+	LRawBig      int    // symbols over SigmaRaw for the large P patterns; 0 = LRaw
+	LUTF8        int    // over SigmaUTF8
+	LRaw         int    // over SigmaRaw
+	EmbedW       int    // embeddings: max |w| over SigmaUTF8 (-1 = none)
+	EmbedPN      int    // embeddings are applied to P patterns with at most this many AST nodes (0 = all)
+	SeedJ        []int  // right-pad lengths of the seed embeddings
+	SeedEmbFirst int    // when > 0 only the first SeedEmbFirst seed patterns (the seeds themselves come first) get embeddings
+	Pads         []byte // embedding pad bytes (default: 'a' and ' ')
+	TokL         int    // seed haystacks: sequences of ≤ TokL tokens
+	TokN         int    // token alphabet size for seeds
+	SeedEmbW     int    // seed embeddings: |w| ≤ this many tokens
 	Modes        []string
 	Budget       time.Duration
 }
@@ -132,7 +133,7 @@ func NewSpace(t Tier) *Space {
 	}
 	if t.EmbedW >= 0 {
 		words := space.WordList(append(append([]string{}, space.SigmaUTF8...), "\xff"), t.EmbedW)
-		sp.HPE = space.Union(sp.HPE, space.Embed(words, []byte{'a', ' '}, space.EmbedI, embedJ1))
+		sp.HPE = space.Union(sp.HPE, space.Embed(words, sp.pads(), space.EmbedI, embedJ1))
 	}
 	return sp
 }
@@ -150,10 +151,16 @@ func (sp *Space) Haystacks(u int) [][]byte {
 	words := space.WordList(toks, sp.T.TokL)
 	if sp.T.SeedEmbW >= 0 && (sp.T.SeedEmbFirst == 0 || u-sp.NP < sp.T.SeedEmbFirst) {
 		ew := space.WordList(toks, sp.T.SeedEmbW)
-		pad := []byte{'a', ' '}
-		words = space.Union(words, space.Embed(ew, pad, space.EmbedI, sp.seedJ()))
+		words = space.Union(words, space.Embed(ew, sp.pads(), space.EmbedI, sp.seedJ()))
 	}
 	return words
+}
+
+func (sp *Space) pads() []byte {
+	if sp.T.Pads != nil {
+		return sp.T.Pads
+	}
+	return []byte{'a', ' '}
 }
 
 func (sp *Space) seedJ() []int {
